@@ -3,8 +3,14 @@
 package data
 
 import (
+	"github.com/cosmos/btcutil/base58"
+
 	zz "github.com/regen-network/regen-ledger/x/data/v3/zzverif"
 )
+
+func init() {
+	zz.B58Encode = func(payload []byte, version byte) string { return base58.CheckEncode(payload, version) }
+}
 
 const dataPkg = "github.com/regen-network/regen-ledger/x/data/v3"
 
